@@ -150,8 +150,20 @@ def run_c15(ctx):
             ctx.log("note: known finding DoubleStashCrossTalk did not show in scenario B (stale entry?)")
         return label, trace, rs, rest, nl
 
+    def late(runs):
+        # fixed witness schedule outside AskPool.tla's granularity (its Enq is atomic): the caller is held inside doReceive
+        # right after its message is linked, the target answers and recycles the context, then the caller goes on
+        label = "late-read witness (caller held after its enqueue; Ask, PID.Ask, SendSync in turn)"
+        trace = ctx.tmp("trace-late.ndjson")
+        p = ctx.run([exe, "ask-late", str(runs), trace], timeout=3000, env=env)
+        rs = json.loads(p.stdout.strip().splitlines()[-1])
+        mm, nl = monitor(ctx, SPEC, "Mon_Ask", trace, "late", pid)
+        if rs.get("drift", 0) and not mm:
+            raise vlib.Infra("the late-read witness schedule could not be executed: %s" % rs.get("drift_at"))
+        return label, trace, rs, mm, nl
+
     futs = [pool.submit(explore, 3, 1, 150 if quick else 2500), pool.submit(explore, 2, 2, 100 if quick else 1500),
-            pool.submit(stress, 30 if quick else 400), pool.submit(stash, 3 if quick else 30)]
+            pool.submit(stress, 30 if quick else 400), pool.submit(stash, 3 if quick else 30), pool.submit(late, 6 if quick else 60)]
 
     # ---- spec -> code
     d = f_design.result()
@@ -207,7 +219,7 @@ def run_c15(ctx):
     for fut in futs:
         label, trace, rs, mm, nl = fut.result()
         tot["hist"] += rs["behaviours"]
-        tot["walks"] += rs["behaviours"] if not label.startswith(("explore", "stress")) else 0
+        tot["walks"] += rs["behaviours"] if not label.startswith(("explore", "stress", "stash", "late")) else 0
         tot["steps"] += rs.get("steps", 0)
         tot["drift"] += rs.get("drift", 0)
         tot["events"] += nl
